@@ -19,6 +19,34 @@ def sn_eq_expected(ats, want):
 
 
 def run(chk, facts, tier):
+    chk.rule('connection-state-reset', 'reset_pdu_buffer (called for every new connection) re-initialises every member of ll_data_pdu_buffer that the other member functions change '
+             '(sequence numbers, next_empty_, maximum sizes, stop flag, both rings); empty_sequence_number_ is exempt: it is written together with next_empty_ = true and read only under it', floor=1)
+    written = {}
+    for fn in facts.functions:
+        if fn.q.startswith(BUF) and fn.kind in ('pattern', 'plain') and fn.name not in ('reset_pdu_buffer', 'll_data_pdu_buffer'):
+            for tgt, op, val, st in stores(fn.body):
+                n = target_name(tgt)
+                if n and n.endswith('_'):
+                    written.setdefault(n, set()).add(fn.name)
+            for c in fn.body.calls():
+                o = base_object(c)
+                if o is not None and strip_casts(o).n and strip_casts(o).n.endswith('_') and c.cn in ('push_front', 'pop_end', 'alloc_front'):
+                    written.setdefault(strip_casts(o).n, set()).add(fn.name)
+    for fn in facts.fns(BUF + 'reset_pdu_buffer'):
+        if fn.kind not in ('pattern', 'plain'):
+            continue
+        done = set()
+        for tgt, op, val, st in stores(fn.body):
+            if op == '=' and not fn.guards(st):
+                done.add(target_name(tgt))
+        for c in fn.body.calls('reset'):
+            o = base_object(c)
+            if o is not None and not fn.guards(c):
+                done.add(strip_casts(o).n)
+        missing = sorted(set(written) - done - {'empty_sequence_number_'})
+        chk.instance('connection-state-reset', fn, 'reset_pdu_buffer re-initialises %s' % sorted(set(written) & done), bool(written) and not missing,
+                     '' if written and not missing else '%s (changed by %s) keeps its value from the previous connection: the first PDUs of the next connection are sent / acknowledged with the state the old one ended in' % (
+                         ', '.join(missing), ', '.join(sorted(written.get(missing[0], []))) if missing else '?'), key='reset')
     chk.rule('sn-writers', 'sequence_number_ is stored only by reset_pdu_buffer (=false), commit_transmit_buffer (toggle) and next_transmit (toggle when an empty PDU is created)', floor=3)
     chk.rule('nesn-writers', 'next_expected_sequence_number_ is stored only by received() under SN == expected, reset_pdu_buffer() and constructors', floor=2)
     chk.rule('deliver-guard', 'received(): push_front to the receive ring is control dependent on SN == expected (new PDU), length != 0 and LLID != 0', floor=1)
